@@ -38,7 +38,7 @@ def c04_projects(quick: bool, rng: random.Random) -> List[Dict[str, Any]]:
         head, tail = ps[:-2], ps[-2:]
         ps = head[::5] + tail
     ps += list(families.t_c04_pkginit())
-    ps += list(families.t_c04_class_members())
+    ps += list(families.t_c04_class_members()) + list(families.t_c04_generations())
     ps += list(families.t8_prefix_roots()) + list(families.t14_two_roots_facade())
     ps += [p for p in families.t3_reexport() if p["meta"].get("idiom") in ("moved-module", "module-alias-handed-on")
            or (p["meta"].get("form") == "plain" and p["meta"].get("consumers") in (["o"], ["o2"], ["o", "r"]))]
